@@ -91,8 +91,9 @@ func (o *c29Oracle) check(inner *objstore.InMemBucket, when string, final bool) 
 			continue
 		}
 		if !st.complete(id) {
-			o.fail("%s: block %s has a meta.json but not all files listed in it (%s)", when, id, describeBucket(st, nil))
-			return
+			// meta.json without all of its files (C28's subject, not C29's): such a block serves
+			// nothing, so it simply does not count below; it is read once it is complete.
+			continue
 		}
 		set, _, err := readBlockSamples(inner, id, o.tmp)
 		if err != nil {
